@@ -1,6 +1,7 @@
 package rules
 
 import (
+	"go/token"
 	"fmt"
 	"go/types"
 	"strings"
@@ -247,7 +248,7 @@ func ruleRetroactive(c *Ctx, rule string) {
 		}
 	}
 	g := an.NewGraph(c.P)
-	reach := g.Reach([]*ssa.Function{treeApply}, func(_ *ssa.Function, e an.Edge) bool { return e.Kind == "static" })
+	reach := g.Reach([]*ssa.Function{treeApply}, func(_ *ssa.Function, e an.Edge) bool { return e.Kind == "static" || e.Kind == "closure" })
 	rewritten := map[string]string{}
 	for f := range reach {
 		an.AllInstrs(f, func(in ssa.Instruction) {
@@ -259,8 +260,8 @@ func ruleRetroactive(c *Ctx, rule string) {
 				}
 			}
 			if mu, ok := in.(*ssa.MapUpdate); ok {
-				if base, isH := fieldLoadOf(mu.Map, a.NodeT, a.FHandlers); isH && base == "recv" {
-					target, val = "node."+a.FHandlers, mu.Value
+				if base, isH := fieldLoadOf(mu.Map, a.NodeT, a.FHandlers); isH && (base == "recv" || (strings.HasPrefix(base, "p:") && f.Parent() != nil)) {
+					target, val = "node."+a.FHandlers, mu.Value // in the walk itself, or in the per-node action handed to a visitor
 				}
 			}
 			if target == "" {
@@ -305,6 +306,40 @@ func ruleRetroactive(c *Ctx, rule string) {
 			}
 		})
 	}
+	// the walk may be delegated to a visitor: nodeApply calls, on every path, a function that applies a per-node
+	// action (a closure) to the node and, unconditionally, to every child with the same action
+	an.AllInstrs(nodeApply, func(in ssa.Instruction) {
+		call, ok := in.(*ssa.Call)
+		if !ok {
+			return
+		}
+		w := an.StaticCallee(&call.Call)
+		if w == nil || !an.InModule(w) || len(call.Call.Args) < 2 || an.AP(call.Call.Args[0]) != "recv" {
+			return
+		}
+		mc, isMC := call.Call.Args[len(call.Call.Args)-1].(*ssa.MakeClosure)
+		if !isMC || !exhaustiveVisitor(c, an.Origin(w)) {
+			return
+		}
+		always := (&an.Query{
+			Target: func(t ssa.Instruction) bool { _, ok := t.(*ssa.Return); return ok },
+			Block:  func(t ssa.Instruction) bool { return t == ssa.Instruction(call) },
+		}).Search(an.Entry(nodeApply)) == nil
+		if !always {
+			return
+		}
+		action := mc.Fn.(*ssa.Function)
+		if len(action.Params) != 1 {
+			return
+		}
+		nodeAP := an.AP(action.Params[0])
+		an.AllInstrs(action, func(x ssa.Instruction) {
+			if mu, ok := x.(*ssa.MapUpdate); ok && rangeKeyOf(mu.Key, nodeAP+"."+a.FHandlers) {
+				okMap = unconditionalInLoop(x)
+				okKids = true // the visitor reaches every child with this very action
+			}
+		})
+	})
 	an.AllInstrs(nodeApply, func(in ssa.Instruction) {
 		if call, ok := calleeIs(in, nodeApply); ok {
 			_, sl, isElem := an.RangeLoopOf(call.Args[0])
@@ -315,6 +350,36 @@ func ruleRetroactive(c *Ctx, rule string) {
 	c.R.Add(rule, c.fk(nodeApply), "walk:every-child", c.P.Pos(nodeApply.Pos()), okKids, ifelse(okKids, "every child is visited with the same list, unconditionally", "the retroactive walk skips children or passes another list"))
 	// the walk starts at the root node itself (it owns the OPTIONS * handler and its 405)
 	rootWalk := (&an.Query{
+		Assume: func(cond ssa.Value) (bool, bool) {
+			// a call without middlewares has nothing to walk for
+			v, neg := stripNot(cond)
+			bo, ok := v.(*ssa.BinOp)
+			if !ok {
+				return false, false
+			}
+			lc, ok := bo.X.(*ssa.Call)
+			if !ok {
+				return false, false
+			}
+			call, isLen := builtinCall(lc, "len")
+			if !isLen || !isMiddlewareSlice(call.Args[0].Type()) {
+				return false, false
+			}
+			if _, isPar := call.Args[0].(*ssa.Parameter); !isPar {
+				return false, false
+			}
+			k, ok := bo.Y.(*ssa.Const)
+			if !ok || k.Value == nil || k.Int64() != 0 {
+				return false, false
+			}
+			switch bo.Op {
+			case token.EQL:
+				return neg, true
+			case token.NEQ, token.GTR:
+				return !neg, true
+			}
+			return false, false
+		},
 		Target: func(t ssa.Instruction) bool { _, ok := t.(*ssa.Return); return ok },
 		Block: func(t ssa.Instruction) bool {
 			call, ok := calleeIs(t, nodeApply)
@@ -328,16 +393,66 @@ func ruleRetroactive(c *Ctx, rule string) {
 		if !ok || base != "recv" {
 			return
 		}
+		// "every call" = every call that has middlewares to apply: with an empty list nothing is to be done
+		var listPar *ssa.Parameter
+		for _, p := range treeApply.Params {
+			if isMiddlewareSlice(p.Type()) {
+				listPar = p
+			}
+		}
+		assumeNonEmpty := func(withTrace bool) func(cond ssa.Value) (bool, bool) {
+			return func(cond ssa.Value) (bool, bool) {
+				v, neg := stripNot(cond)
+				if an.AP(v) == "recv."+a.FHasTrace {
+					return withTrace != neg, true
+				}
+				bo, ok := v.(*ssa.BinOp)
+				if !ok || listPar == nil {
+					return false, false
+				}
+				lc, ok := bo.X.(*ssa.Call)
+				if !ok {
+					return false, false
+				}
+				if call, isLen := builtinCall(lc, "len"); !isLen || call.Args[0] != ssa.Value(listPar) {
+					return false, false
+				}
+				k, ok := bo.Y.(*ssa.Const)
+				if !ok || k.Value == nil {
+					return false, false
+				}
+				n := k.Int64()
+				var val, known bool
+				switch bo.Op {
+				case token.EQL:
+					val, known = false, n == 0
+				case token.NEQ, token.GTR:
+					val, known = true, n == 0
+				case token.LSS:
+					val, known = false, n <= 1
+				case token.GEQ:
+					val, known = true, n <= 1
+				}
+				return val != neg, known
+			}
+		}
+		everyPath := func(withTrace bool) bool {
+			return (&an.Query{
+				Assume: assumeNonEmpty(withTrace),
+				Target: func(t ssa.Instruction) bool { _, ok := t.(*ssa.Return); return ok },
+				Block:  func(t ssa.Instruction) bool { return t == in },
+			}).Search(an.Entry(treeApply)) == nil
+		}
 		switch field {
 		case a.FNotFound:
-			un := in.Block() == treeApply.Blocks[0]
-			c.R.Add(rule, c.fk(treeApply), "404:unconditional", c.pos(in), un, ifelse(un, "the 404 handler is rewritten on every call", "the 404 handler is rewritten only on some paths"))
+			un := everyPath(true) && everyPath(false)
+			c.R.Add(rule, c.fk(treeApply), "404:unconditional", c.pos(in), un, ifelse(un, "the 404 handler is rewritten on every call that brings middlewares", "the 404 handler is rewritten only on some paths"))
 		case a.FTrace:
 			dom := an.DominatedByEdge(in, func(b *ssa.BasicBlock, succ int) bool {
 				return edgeHas(b, succ, func(cond ssa.Value, truth bool) bool { return an.AP(cond) == "recv."+a.FHasTrace && truth })
 			})
-			onlyThat := len(in.Block().Preds) == 1 && in.Block().Preds[0] == treeApply.Blocks[0]
-			c.R.Add(rule, c.fk(treeApply), "trace:iff-hasTrace", c.pos(in), dom && onlyThat, ifelse(dom && onlyThat, "the TRACE handler is rewritten exactly when configured", "the TRACE handler is not rewritten exactly under hasTrace"))
+			always := everyPath(true)
+			c.R.Add(rule, c.fk(treeApply), "trace:iff-hasTrace", c.pos(in), dom && always, ifelse(dom && always, "the TRACE handler is rewritten exactly when configured", "the TRACE handler is not rewritten exactly under hasTrace"))
 		}
 	})
 	// (d) Router.Use
@@ -353,7 +468,51 @@ func ruleRetroactive(c *Ctx, rule string) {
 			retroArg = c.O.Of(call.Args[1]).String()
 		}
 	})
-	both := storeMs != nil && retro != nil && len(use.Blocks) == 1
+	// on every path that brings middlewares (an early return for an empty list changes nothing)
+	both := storeMs != nil && retro != nil
+	if both {
+		var listPar *ssa.Parameter
+		for _, p := range use.Params {
+			if isMiddlewareSlice(p.Type()) {
+				listPar = p
+			}
+		}
+		for _, must := range []ssa.Instruction{storeMs, retro} {
+			must := must
+			path := (&an.Query{
+				Assume: func(cond ssa.Value) (bool, bool) {
+					v, neg := stripNot(cond)
+					bo, ok := v.(*ssa.BinOp)
+					if !ok || listPar == nil {
+						return false, false
+					}
+					lc, ok := bo.X.(*ssa.Call)
+					if !ok {
+						return false, false
+					}
+					if call, isLen := builtinCall(lc, "len"); !isLen || call.Args[0] != ssa.Value(listPar) {
+						return false, false
+					}
+					k, ok := bo.Y.(*ssa.Const)
+					if !ok || k.Value == nil || k.Int64() != 0 {
+						return false, false
+					}
+					switch bo.Op {
+					case token.EQL:
+						return neg, true
+					case token.NEQ, token.GTR:
+						return !neg, true
+					}
+					return false, false
+				},
+				Target: func(t ssa.Instruction) bool { _, ok := t.(*ssa.Return); return ok },
+				Block:  func(t ssa.Instruction) bool { return t == must },
+			}).Search(an.Entry(use))
+			if path != nil {
+				both = false
+			}
+		}
+	}
 	c.R.Add(rule, c.fk(use), "records-and-applies-on-every-path", c.P.Pos(use.Pos()), both, ifelse(both, "Use records the middlewares and applies them to existing handlers on its single path", "Router.Use does not both record and retroactively apply the middlewares on every path"))
 	c.R.Add(rule, c.fk(use), "retroactive-arg=new-only", c.P.Pos(use.Pos()), retroArg == "param:m", ifelse(retroArg == "param:m", "only the new middlewares are applied to existing handlers", "the retroactive call receives "+retroArg+": already-applied middlewares are applied again (or new ones not at all)"))
 	// (e) Group.Use
@@ -604,4 +763,51 @@ func ruleNoWastedWrap(c *Ctx, rule string) {
 			}
 		})
 	}
+}
+
+// exhaustiveVisitor: w(node, action) applies action to node on every path and calls itself with the same action for
+// every child, unconditionally (a pre- or post-order walk of the subtree).
+func exhaustiveVisitor(c *Ctx, w *ssa.Function) bool {
+	a := c.A
+	if w == nil || len(w.Blocks) == 0 || len(w.Params) < 2 {
+		return false
+	}
+	action := w.Params[len(w.Params)-1]
+	if _, isFn := action.Type().Underlying().(*types.Signature); !isFn {
+		return false
+	}
+	node := w.Params[0]
+	var selfCalls, visits []ssa.Instruction
+	kidsOK := false
+	an.AllInstrs(w, func(in ssa.Instruction) {
+		call, ok := in.(*ssa.Call)
+		if !ok {
+			return
+		}
+		if call.Call.Value == ssa.Value(action) && len(call.Call.Args) == 1 && call.Call.Args[0] == ssa.Value(node) {
+			visits = append(visits, in)
+		}
+		if g := an.StaticCallee(&call.Call); g != nil && an.Origin(g) == an.Origin(w) {
+			selfCalls = append(selfCalls, in)
+			_, sl, isElem := an.RangeLoopOf(call.Call.Args[0])
+			if isElem && an.AP(sl) == an.AP(node)+"."+a.FChildren && call.Call.Args[len(call.Call.Args)-1] == ssa.Value(action) && unconditionalInLoop(in) {
+				kidsOK = true
+			}
+		}
+	})
+	if len(visits) == 0 || len(selfCalls) != 1 || !kidsOK {
+		return false
+	}
+	// the node itself is visited on every path
+	return (&an.Query{
+		Target: func(t ssa.Instruction) bool { _, ok := t.(*ssa.Return); return ok },
+		Block: func(t ssa.Instruction) bool {
+			for _, v := range visits {
+				if v == t {
+					return true
+				}
+			}
+			return false
+		},
+	}).Search(an.Entry(w)) == nil
 }
